@@ -58,6 +58,22 @@ func main() {
 	}
 	_ = os.MkdirAll(*work, 0o755)
 	cfg := props.Cfg{Tier: *tier, Seed: *seed, Work: *work, Args: fs.Args()}
+	// Logging of the services under test: either disabled or at trace level into a discard sink (every log statement's
+	// arguments are then evaluated and level-dependent code runs).  Which one alternates with the check number and
+	// the seed, so that seeds 1 and 2 together run every check both ways; child processes inherit the choice.
+	logMode := os.Getenv("VERIF_LOG")
+	if logMode == "" {
+		logMode = "off"
+		if _, ok := table[name]; ok && len(name) == 3 {
+			if n, err := strconv.Atoi(name[1:]); err == nil && (int64(n)+*seed)%2 == 0 {
+				logMode = "trace"
+			}
+		}
+		os.Setenv("VERIF_LOG", logMode)
+	}
+	if logMode == "trace" {
+		rig.TraceLoggingToDiscard()
+	}
 	if f, ok := table[name]; ok {
 		// Overall watchdog: a check that hangs (for instance because a change to Dirk leaks a lock on a path the
 		// check drives sequentially) ends as inconclusive with a goroutine dump instead of hanging for ever.
